@@ -297,8 +297,12 @@ func handleJob(raw json.RawMessage) interface{} {
 		return out
 	}
 	out.WaText, out.WzText = j.Wa, j.Wz
-	out.Wa = runMainSide("p.wa", j.Wa)
-	out.Wz = runMainSide("p.wz", j.Wz)
+	if j.Side != "wz" {
+		out.Wa = runMainSide("p.wa", j.Wa)
+	}
+	if j.Side != "wa" {
+		out.Wz = runMainSide("p.wz", j.Wz)
+	}
 	return out
 }
 
@@ -381,7 +385,7 @@ func matrix() []mentry {
 		{"println", []string{"输出"}, "", "\tprintln()\n\tprintln(1, \"a\", true, int64(-5), uint64(18446744073709551615), 'x' == 120)\n\tprintln(\"one\")\n"},
 		{"print", []string{"打印"}, "", "\tprint(\"a\")\n\tprint(1)\n\tprint(\"\\n\")\n\tprint(\"b\\n\")\n"},
 	}
-	for _, t := range [][2]string{{"int", "整型"}, {"uint", "正整"}, {"int8", "微整型"}, {"int16", "短整型"}, {"int32", "普整型"}, {"int64", "长整型"}, {"uint8", "微正整"}, {"uint16", "短正整"}, {"uint32", "普正整"}, {"uint64", "长正整"}, {"uintptr", "地址型"}} {
+	for _, t := range [][2]string{{"int", "整型"}, {"uint", "正整"}, {"__wa_i8", "微整型"}, {"__wa_i16", "短整型"}, {"int32", "普整型"}, {"int64", "长整型"}, {"uint8", "微正整"}, {"uint16", "短正整"}, {"uint32", "普正整"}, {"uint64", "长正整"}, {"uintptr", "地址型"}} {
 		m = append(m, mentry{t[0], []string{t[1]}, "", intProbe(t[0]) + fmt.Sprintf("\tvar s []%[1]s\n\ts = append(s, 3)\n\tm := map[%[1]s]%[1]s{1: 2}\n\tprintln(len(s), int64(s[0]), int64(m[1]), int64(%[1]s(200)+%[1]s(100)))\n", t[0])})
 	}
 	// negative entries: rejected by both front ends
@@ -449,7 +453,7 @@ func main() {
 		mjobs = append(mjobs, job{GoSrc: "package main\n\n" + e.decls + "\nfunc Case0() {\n" + e.body + "}\n", N: 1, Must: e.must, Strict: e.name == "any"})
 	}
 	mres := make([]jobRes, len(mjobs))
-	runJobs(r, pool, mjobs, mres)
+	runJobsPerSide(r, pool, mjobs, mres)
 	for i, e := range ms {
 		res := mres[i]
 		key := "C09|matrix|" + e.name
@@ -485,7 +489,7 @@ func main() {
 		pjobs = append(pjobs, job{Wa: p.wa, Wz: p.wz})
 	}
 	pres := make([]jobRes, len(pjobs))
-	runJobs(r, pool, pjobs, pres)
+	runJobsPerSide(r, pool, pjobs, pres)
 	for i, p := range ps {
 		r.Evals.Add(1)
 		if pres[i].Wa.LoadErr != "" {
@@ -615,34 +619,7 @@ func main() {
 			sjobs[i] = mk([]unitRef{u})
 		}
 		sres := make([]jobRes, len(sjobs))
-		runJobs(r, pool, sjobs, sres)
-		// a single-item program that kills the worker (logger.Fatal in the back end) is run again
-		// one side per process, so that a crash of one front end cannot hide behind the other
-		var again []int
-		for i := range sres {
-			if strings.HasPrefix(sres[i].Wa.CompileErr, "worker ") {
-				again = append(again, i)
-			}
-		}
-		if len(again) > 0 {
-			ajobs := make([]job, 0, 2*len(again))
-			for _, i := range again {
-				ja, jz := sjobs[i], sjobs[i]
-				ja.Side, jz.Side = "wa", "wz"
-				ajobs = append(ajobs, ja, jz)
-			}
-			ares := make([]jobRes, len(ajobs))
-			runJobs(r, pool, ajobs, ares)
-			for k, i := range again {
-				a, z := ares[2*k], ares[2*k+1]
-				m := a
-				m.Wz = z.Wz
-				if m.WzText == "" {
-					m.WzText = z.WzText
-				}
-				sres[i] = m
-			}
-		}
+		runJobsPerSide(r, pool, sjobs, sres)
 		for i, u := range singles {
 			it := u.g.Items[u.items[0]]
 			res := sres[i]
@@ -683,6 +660,39 @@ func runJobs(r *mc.Run, pool *mc.Pool, jobs []job, out []jobRes) {
 			out[res.Index] = jobRes{Err: "bad worker output: " + err.Error()}
 		}
 	})
+}
+
+// runJobsPerSide is runJobs for single-case programs: a program that kills the worker
+// (logger.Fatal in the back end) is run again one side per process, so that a crash of one front
+// end cannot hide behind the other.
+func runJobsPerSide(r *mc.Run, pool *mc.Pool, jobs []job, out []jobRes) {
+	runJobs(r, pool, jobs, out)
+	var again []int
+	for i := range out {
+		if strings.HasPrefix(out[i].Wa.CompileErr, "worker ") {
+			again = append(again, i)
+		}
+	}
+	if len(again) == 0 {
+		return
+	}
+	ajobs := make([]job, 0, 2*len(again))
+	for _, i := range again {
+		ja, jz := jobs[i], jobs[i]
+		ja.Side, jz.Side = "wa", "wz"
+		ajobs = append(ajobs, ja, jz)
+	}
+	ares := make([]jobRes, len(ajobs))
+	runJobs(r, pool, ajobs, ares)
+	for k, i := range again {
+		a, z := ares[2*k], ares[2*k+1]
+		m := a
+		m.Wz = z.Wz
+		if m.WzText == "" {
+			m.WzText = z.WzText
+		}
+		out[i] = m
+	}
 }
 
 func tail(s string, n int) string {
